@@ -19,7 +19,7 @@ CONSTANTS IncMax,     \* Incarnation::MAX (65535 in the code)
                       \* the self-test uses to show that TLC finds each defect in the model as well
 
 Fixed(sha) == sha \in Fixes
-AllFixes == {"654ac52", "3f5c312", "66b62cc", "7418747", "f6702a7", "73fde95", "ea3a2f4", "6ca130a"}
+AllFixes == {"654ac52", "3f5c312", "66b62cc", "7418747", "f6702a7", "73fde95", "ea3a2f4", "6ca130a", "a23716c"}
 
 NoId == <<0, 0>>
 Addr(id) == id[1]
